@@ -16,7 +16,8 @@ Definition mk_env (ops : list (list hop)) (xst : list Z) (stop : option N) : env
      expect_status := fun num _ => nth_req num xst 100%Z;
      continue_ok := fun num _ => Z.eqb (nth_req num xst 100%Z) 100%Z;
      stop_at_close := fun num => match stop with Some k => (k <=? num)%N | None => false end;
-     stop_at_idle := fun num => match stop with Some k => (k <=? num)%N | None => false end |}.
+     stop_at_idle := fun num => match stop with Some k => (k <=? num)%N | None => false end;
+     gone_at_start := fun _ => false |}.
 
 (* ReadBufferSize 4096 (default), MaxRequestBodySize default 4 MiB *)
 Definition the_framer : framer := inst_framer default_cfg 4096%N (4 * 1024 * 1024)%Z.
